@@ -28,12 +28,12 @@ FLOORS = {
         "events": {"edit_distance": 1500, "prefix_edit_distances": 1500, "assert:value": 3000,
                    "assert:prefix-value": 3000, "assert:prefix-padding": 1000,
                    "assert:independence-solo": 1500, "assert:independence-garbage": 1000},
-        "classes": dict({c: 20 for c in G.CLASSES}, long_sequences=60),
+        "classes": dict({c: 20 for c in G.CLASSES}, long_sequences=60, huge_batch=8),
         "distinct": 1000,
     },
     "thorough": {
         "events": {"edit_distance": 50000, "prefix_edit_distances": 50000},
-        "classes": dict({c: 1000 for c in G.CLASSES}, exhaustive2=46128),
+        "classes": dict({c: 1000 for c in G.CLASSES}, exhaustive2=46128, huge_batch=300),
         "distinct": 30000,
     },
 }
@@ -58,6 +58,16 @@ def generate(rng, tier, i):
                                  max_len=rng.choice([33, 48, 70]))
         case["class"] = "long_sequences"
         case["ref"], case["hyp"] = case["ref"][:3], case["hyp"][:3]
+        return case
+    if i % 400 == 399:
+        # a batch whose (R + 1) x (R + 1) x N working set runs to millions of entries, N not a round number
+        # (block-wise walks over the batch dimension)
+        R = rng.choice([31, 63, 63, 127, 255])
+        cells = rng.choice([2 ** 20, 2 ** 21, 2 ** 22, 2 ** 22, 2 ** 23])
+        N = max(3, int(cells * rng.uniform(1.0, 2.6)) // (R + 1) ** 2 + rng.randint(1, 13))
+        case = G.gen_string_case(rng, tier, G.CLASSES.index(rng.choice(["ragged", "equal_costs", "unequal_costs"])),
+                                 dims=(N, R, rng.randint(3, 9)))
+        case["class"] = "huge_batch"
         return case
     return G.gen_string_case(rng, tier, i)
 
